@@ -40,6 +40,8 @@ pub enum HOp {
     Subscribe { id: usize, reset: bool },
     SubClone { from: usize, id: usize },
     NextNow(usize),
+    /// `Subscriber::reset`: nothing observed any more
+    SubReset(usize),
     /// non-blocking poll
     Poll(usize),
     /// blocking next(): like Poll but never returns Pending
@@ -175,6 +177,10 @@ impl Spec {
             HOp::NextNow(id) => {
                 self.observed[*id] = self.version;
                 Res::Val(self.value)
+            }
+            HOp::SubReset(id) => {
+                self.observed[*id] = 0;
+                Res::Unit
             }
             HOp::Poll(id) => Res::Poll(self.poll(*id)),
             HOp::Next(id) => match self.poll(*id) {
